@@ -11,6 +11,7 @@
 (*   C06  toc_sync, no_empty_bookkeeping_groups, meta_follows_reference,   *)
 (*        uuids_stable, index_eq_rebuild, failed_op_changes_nothing        *)
 (*   C07  query_exact, get_returns_stored, get_found_iff_matches,          *)
+(*        meta_listing_is_storage,                                          *)
 (*        ancestor_view_valid, attach_outcome (aux/unknown/duplicate)      *)
 (*   C08  user_view_is_plain_tree, listings_consistent,                    *)
 (*        reserved_rejected_without_effect, no_unexpected_reserved_nodes   *)
@@ -191,6 +192,10 @@ DriverClauses(env, a, pd, d) ==
                \/ Len(q.result) # Cardinality(SeqToSet(q.result))
           THEN {"query_exact"} ELSE {})
     \cup (IF \E g \in SeqToSet(d.gets) : g.err # "" \/ ~g.found \/ ~g.contains \/ ~g.listed THEN {"get_found_iff_matches"} ELSE {})
+    \* what the nodes list as attached metadata = what is stored (no object missing, none listed that is not there)
+    \cup (IF {<<x.node, x.schema>> : x \in SeqToSet(d.umeta)} # {<<m.node, m.schema[1]>> : m \in P.meta}
+             \/ \E x \in SeqToSet(d.umeta) : ~x.in \/ ~x.got
+          THEN {"meta_listing_is_storage"} ELSE {})
     \cup (IF \E g \in SeqToSet(d.gets) : g.found /\ ~g.is_instance THEN {"ancestor_view_valid"} ELSE {})
     \cup (IF \E g \in SeqToSet(d.gets) : g.found /\ ~g.eq THEN {"get_returns_stored"} ELSE {})
     \cup (IF ~SelfDescribing(env, P) THEN {"self_describing"} ELSE {})
